@@ -14,6 +14,18 @@ C17  Cloning a program unit yields an independent, correctly scoped copy.
  R3  rescoping and re-parenting: the clone path defaults ``rescope_symbols`` to
      True, clones the symbol table with the new parent, re-parents contained
      units to the clone and registers it in the parent scope.
+ R4  rescope after re-parenting: on every path of ``ProgramUnit.clone`` that
+     re-parents contained units (``node._reset_parent(obj)`` or clones them with
+     ``parent=obj``) a later ``obj.rescope_symbols()`` is executed (its guards
+     are implied by those of the re-parenting statement) -- otherwise host
+     associated symbols inside the contained procedures keep the scope of the
+     original host.
+ R5  rebuilt scoped nodes never keep the original parent: ``clone`` rebuilds the
+     IR with ``Transformer({}, rebuild_scopes=True)``; in ``visit_ScopedNode``
+     the ``parent=`` handed to ``_rebuild`` under ``self.rebuild_scopes`` must not
+     be derived from ``o.parent`` (a ``TypeDef`` registers itself in its parent's
+     symbol table on construction, so the copy would overwrite the original's
+     entries).
 Not decided: aliasing through objects reachable from symbol attributes.
 """
 import ast
@@ -160,8 +172,51 @@ def run(ctx):
     (ctx.judge('R3', 'Scope.clone: table cloned + forced rescoping') if ok else
      ctx.violation('R3', 'Scope.clone:symbol_attrs', scl.where, 'the symbol table is shared with / not re-parented for the clone'))
 
+    # ---- R4
+    ctx.rule('R4', 'ProgramUnit.clone: every re-parenting statement is followed by obj.rescope_symbols() under guards it implies')
+    rep = X.nodes_with_guards(pc.node, lambda x: isinstance(x, ast.Call) and ((X.dotted_attr(x.func) or '').endswith('._reset_parent')
+                                                                               or (isinstance(x.func, ast.Attribute) and x.func.attr == 'clone'
+                                                                                   and any(k.arg == 'parent' and ast.unparse(k.value) == 'obj' for k in x.keywords))))
+    resc = X.nodes_with_guards(pc.node, lambda x: isinstance(x, ast.Call) and X.dotted_attr(x.func) == 'obj.rescope_symbols')
+    ctx.floor('R4', 're-parenting statements in ProgramUnit.clone', len(rep), 2)
+    for call, guards in rep:
+        later = [(c, g) for c, g in resc if c.lineno > call.lineno and all(x in guards for x in g)]
+        inst = f'ProgramUnit.clone:{ast.unparse(call)[:50]}'
+        if later:
+            ctx.judge('R4', inst, facts={'guards': guards, 'rescope_guards': later[0][1]})
+        else:
+            ctx.violation('R4', inst, f'{pc.module.relpath}:{call.lineno}',
+                          f'`{ast.unparse(call)[:70]}` (under {guards}) is not followed by obj.rescope_symbols() on the same path '
+                          f'(rescope calls are under {[g for _, g in resc]}): symbols inside the re-parented procedures that refer to host '
+                          f'variables keep pointing to the scope of the original unit', facts={'guards': guards})
+    # ---- R5
+    ctx.rule('R5', 'Transformer.visit_ScopedNode: under self.rebuild_scopes the parent= of the rebuilt node is not derived from o.parent')
+    vs = m.get_function('loki/ir/transformer.py', 'Transformer.visit_ScopedNode')
+    n5 = 0
+    for call, guards in X.nodes_with_guards(vs.node, lambda x: isinstance(x, ast.Call) and X.dotted_attr(x.func) == 'self._rebuild'):
+        if 'self.rebuild_scopes' not in guards:
+            continue
+        n5 += 1
+        pk = [k for k in call.keywords if k.arg == 'parent']
+        inst = f'Transformer.visit_ScopedNode:{ast.unparse(call)[:60]}'
+        if pk and any(isinstance(a, ast.Attribute) and a.attr == 'parent' and ast.unparse(a.value) == 'o' for a in ast.walk(pk[0].value)):
+            ctx.violation('R5', 'Transformer.visit_ScopedNode:rebuilt-with-original-parent', f'{vs.module.relpath}:{call.lineno}',
+                          f'`{ast.unparse(call)}` may construct the copy with the parent of the original node: constructing a TypeDef '
+                          f'registers it in that parent\'s symbol table, so cloning a unit overwrites the original\'s derived-type entries '
+                          f'with the clone\'s nodes', instance=inst)
+        else:
+            ctx.judge('R5', inst, facts={'parent': ast.unparse(pk[0].value) if pk else 'not passed (no parent)'})
+    ctx.floor('R5', 'rebuilds under rebuild_scopes', n5, 1)
+
 
 MUTANTS = [
+    Mutant('rescope-only-when-cloned', 'loki/program_unit.py',
+           "                obj.contains = obj.contains.clone(body=as_tuple(contains))\n            else:",
+           "                obj.contains = obj.contains.clone(body=as_tuple(contains))\n                obj.rescope_symbols()\n            else:",
+           expect=('R4', '_reset_parent'), also=[('loki/program_unit.py', "            # Rescope to ensure that symbol references are up to date\n            obj.rescope_symbols()\n\n        obj.register_in_parent_scope()", "        obj.register_in_parent_scope()")]),
+    Mutant('rebuilt-scope-keeps-parent', 'loki/ir/transformer.py',
+           "            if 'scope' in kwargs:\n                o = self._rebuild(o, o.children, parent=kwargs['scope'])\n            else:\n                o = self._rebuild(o, o.children)\n        elif",
+           "            o = self._rebuild(o, o.children, parent=kwargs.get('scope', o.parent))\n        elif", count=2, expect=('R5', 'rebuilt-with-original-parent')),
     Mutant('prefix-not-forwarded', 'loki/subroutine.py', "        if self.prefix and 'prefix' not in kwargs:\n            kwargs['prefix'] = self.prefix\n", "",
            expect=('R1', 'Subroutine.prefix'), quick=True),
     Mutant('spec-shared', 'loki/program_unit.py', "        if 'spec' in kwargs:\n            kwargs['spec'] = rebuild.visit(kwargs['spec'])\n", "",
